@@ -28,7 +28,9 @@ RULE = ("four kinds of history: (overlap) the C11 case streams, with the default
         "records that fail Strict validation; (sorter) capacities 0-6, 0-20 adds, temp-dir "
         "listing and spill-file record counts after every add. Oracle-only histories (outside the model): a handle that "
         "raises BlockingIOError at one write call, one failing spill (mkstemp raises once) after which the caller keeps "
-        "adding, overlap inputs containing records without start/end; a long-sparse overlap case. Non-trivial: at least 3 consumer actions with no error.")
+        "adding, overlap inputs containing records without start/end; a long-sparse overlap case; maflib.util.PeekableIterator used directly (peek, next(p), p.next(), iter(p)). Overlap inputs "
+        "are plain locatables built through the constructor or the property setters; the caller's PeekableIterator subclass "
+        "may read the iterator it is handed through iter() or .next(). Non-trivial: at least 3 consumer actions with no error.")
 ASSUMPTIONS = [
     "overlap inputs are list-backed counting iterators; the bound is claimed for histories without a raised error (a report loses the group in progress)",
     "scheme-less reader cases use Silent/Lenient stringency (parsing never raises); Strict reader cases use the built-in scheme gdc-1.0.0 with lines whose parsing raises MafFormatException before the next line is pulled (which physical lines fail is part of the case; the model takes it as given)",
@@ -326,8 +328,35 @@ def run_sorter(case):
     return obs
 
 
+def run_peekable(case):
+    """maflib.util.PeekableIterator used directly: peek(), next(p), p.next(), iter(p)"""
+    from maflib.util import PeekableIterator
+
+    cnt = K.Counting(list(case["items"]))
+    p = PeekableIterator(cnt)
+    steps = [["init", None, cnt.n]]
+    it = p
+    for op in case["ops"]:
+        try:
+            if op == "peek":
+                v = p.peek()
+            elif op == "next":
+                v = next(it)
+            elif op == "dotnext":
+                v = it.next()
+            else:
+                it = iter(p)
+                v = "same" if it is p else "other"
+            steps.append([op, v, cnt.n])
+        except StopIteration:
+            steps.append([op, "stop", cnt.n])
+    return {"steps": steps, "_nomodel": True}
+
+
 def run_impl(case):
     w = case["what"]
+    if w == "peekable":
+        return run_peekable(case)
     if w == "overlap":
         obs = K.run_overlap(case["case"])
         if case.get("nomodel"):
@@ -390,6 +419,27 @@ def from_model(case, sx):
 def oracle(case, obs):
     w = case["what"]
     out = []
+    if w == "peekable":
+        items = case["items"]
+        taken = 0
+        for op, v, pulled in obs["steps"]:
+            if op in ("next", "dotnext"):
+                want = items[taken] if taken < len(items) else "stop"
+                if v != want:
+                    out.append("peekable-returned-the-wrong-element")
+                    break
+                taken = min(taken + 1, len(items))
+            elif op == "peek":
+                if v != (items[taken] if taken < len(items) else None):
+                    out.append("peekable-peek-is-not-the-next-element")
+                    break
+            elif op == "iter" and v != "same":
+                out.append("peekable-iter-is-not-itself")
+                break
+            if pulled > taken + 1:
+                out.append("peekable-pulled-more-than-one-element-ahead")
+                break
+        return out
     if w == "overlap":
         c = case["case"]
         if obs["init"][0] != 0:
@@ -478,6 +528,8 @@ def classify(case, obs):
     w = case["what"]
     if obs is None:
         return w + "/error"
+    if w == "peekable":
+        return "peekable/direct"
     if w == "overlap":
         c = case["case"]
         if case.get("nomodel"):
@@ -502,6 +554,8 @@ def classify(case, obs):
 
 def nontrivial(case, obs):
     steps = obs["steps"]
+    if case["what"] == "peekable":
+        return len(steps) >= 4
     if case["what"] == "overlap":
         return sum(1 for o, _ in steps if o[0] == 0) >= 2
     if case["what"] == "reader":
@@ -616,6 +670,13 @@ def gen_writer(rng):
     return case
 
 
+def gen_peekable(rng):
+    n = rng.choice([0, 1, 2, 3, 5, 8])
+    items = [rng.choice([0, 1, 2, 7, -3]) for _ in range(n)]      # 0 is a false element, never None
+    ops = [rng.choice(["peek", "next", "dotnext", "next", "dotnext", "iter"]) for _ in range(rng.randint(1, n + 4))]
+    return {"what": "peekable", "items": items, "ops": ops, "nomodel": True}
+
+
 def gen_sorter(rng):
     c = {"what": "sorter", "cap": rng.choice([0, 1, 1, 2, 2, 3, 4, 5, 6]), "n": rng.randint(0, 20)}
     if c["cap"] >= 1 and rng.random() < 0.2:
@@ -665,7 +726,7 @@ def gen_overlap(rng):
     else:
         c = K.gen_adversarial(rng, kind, ot)
     if kind == 0 and rng.random() < 0.35:
-        c["peek_sub"] = True          # the caller passes its own PeekableIterator subclass
+        c["peek_sub"] = rng.choice([1, 2, 3])   # the caller passes its own PeekableIterator subclass
     return {"what": "overlap", "case": c}
 
 
@@ -679,6 +740,8 @@ def generate(rng, n):
             out.append(gen_overlap_noposition(rng))
         elif k % 24 == 8:
             out.append(gen_writer_fault(rng))
+        elif k % 24 == 15:
+            out.append(gen_peekable(rng))
         elif r < 5:
             out.append(gen_overlap(rng))
         elif r < 8:
@@ -706,6 +769,7 @@ def corpus():
          "recs": [["A\tB", "1\t2", True], ["A\tB", "3\t4", True]]},
         {"what": "sorter", "cap": 3, "n": 10},
         {"what": "sorter", "cap": 2, "n": 5},
+        {"what": "peekable", "items": [0, 4, 0], "ops": ["peek", "iter", "next", "dotnext", "peek", "dotnext", "next", "peek"], "nomodel": True},
         {"what": "sorter", "cap": 3, "n": 8, "fail_spill": 1, "nomodel": True},
         {"what": "writer", "mode": 0, "fault": 3, "nomodel": True, "recs": [["A\tB", "%d\t%d" % (i, i), True] for i in range(5)]},
         {"what": "reader", "file": "gz", "lines": ["#a b\n", "A\tB\n"] + ["%d\t%d\n" % (i, i) for i in range(12)], "k": 3, "lenient": False, "via_iter": False},
@@ -738,6 +802,9 @@ def shrink(case):
         rs = case["recs"]
         for i in range(1, len(rs)):          # the first record fixes the column names
             yield dict(case, recs=rs[:i] + rs[i + 1:])
+    elif w == "peekable":
+        for i in range(len(case["ops"])):
+            yield dict(case, ops=case["ops"][:i] + case["ops"][i + 1:])
     else:
         if case["n"] > 0:
             yield dict(case, n=case["n"] - 1)
